@@ -812,9 +812,6 @@ struct static_array<T, ::boost::multi::dimensionality_type{0}, Alloc>  // NOLINT
 		std::move(other).ref::layout_t::operator=({});
 	}
 
-	using ref::operator==;
-	using ref::operator!=;
-
 	static_array(
 		typename static_array::extensions_type const& extensions,
 		typename static_array::element const& elem, allocator_type const& alloc
